@@ -17,3 +17,107 @@ package multiterm
 //@ iface rare/pkg/multiterm.MultilineTerm.Close
 //@   params (this)
 //@   modifies dyn(this).*
+
+// ---- ghost VT100-subset terminal (C20) ----
+// One terminal; all ghost state is keyed by the unit key 0:
+//   term_row: cursor row relative to the first line ever written     term_col0: cursor at column 0
+//   term_hidden: cursor hidden     term_line(r): text last written at row r
+//   term_dirty(r): row r may still show residue of longer earlier text right of term_line(r)
+//@ ghost term_row(unit) int
+//@ ghost term_col0(unit) bool
+//@ ghost term_hidden(unit) bool
+//@ ghost term_line(row) str
+//@ ghost term_dirty(row) bool
+//@ smt
+//@ (declare-fun wl_out (Str Bool Int) Str)   ; what WriteLineNoWrap emits for (text, AutoTrim, columns)
+//@ end
+
+// The meaning of the five control sequences (assumed: this is the VT100 contract).
+//@ func moveUp
+//@   trusted
+//@   requires n >= 0 && term_row(0) >= n
+//@   modifies ghost term_row(0)
+//@   ensures term_row(0) == old(term_row(0)) - n
+//@ func hideCursor
+//@   trusted
+//@   modifies ghost term_hidden(0)
+//@   ensures term_hidden(0)
+//@ func showCursor
+//@   trusted
+//@   modifies ghost term_hidden(0)
+//@   ensures !term_hidden(0)
+//@ func eraseRemainingLine
+//@   trusted
+//@   modifies ghost term_dirty(term_row(0))
+//@   ensures !term_dirty(term_row(0))
+// fmt.Print("\n") moves to column 0 of the next row, fmt.Print("\r") to column 0 of this row.
+//@ extern fmt.Print
+//@   params (a)
+//@   requires len(a) == 1 && (iface_str(a[0]) == "\n" || iface_str(a[0]) == "\r")
+//@   modifies ghost term_row(0), ghost term_col0(0)
+//@   ensures term_col0(0)
+//@   ensures iface_str(a[0]) == "\n" ==> term_row(0) == old(term_row(0)) + 1
+//@   ensures iface_str(a[0]) == "\r" ==> term_row(0) == old(term_row(0))
+//@ extern fmt.Println
+//@   params (a)
+//@   requires len(a) == 0
+//@   modifies ghost term_row(0), ghost term_col0(0)
+//@   ensures term_col0(0) && term_row(0) == old(term_row(0)) + 1
+
+// Writing text at column 0 replaces the row's text by what was emitted; residue of a longer
+// earlier text may remain to the right (dirty) until the rest of the line is erased.
+// (the terminal meaning of the write is assumed; the body is proved panic-free and to emit exactly one Write)
+//@ func WriteLineNoWrap
+//@   requires out != nil
+//@   modifies ghost term_line(term_row(0)), ghost term_dirty(term_row(0)), ghost term_col0(0), ghost w_calls(out)
+//@   ensures w_calls(out) == old(w_calls(out)) + 1
+//@   ensures [assumed-terminal-meaning] old(term_col0(0)) ==> term_line(term_row(0)) == wl_out(s, AutoTrim, computedCols) && term_dirty(term_row(0))
+//@   loop 1 invariant 0 <= i && i <= len(runes) && 0 <= visibleRunes && w_calls(out) == old(w_calls(out))
+//@   loop 2 invariant 0 <= i && i < len(runes) && 0 <= visibleRunes && w_calls(out) == old(w_calls(out))
+
+//@ pred tw(s) := 0 <= s.cursor && s.cursor <= s.maxLine && s.maxLine <= 1000000000 && s.cursor == term_row(0) && s.cursorHidden == term_hidden(0)
+
+//@ func (*TermWriter).goTo
+//@   requires tw(s) && 0 <= line && line <= 1000000000
+//@   modifies s.cursor, s.maxLine, ghost term_row(0), ghost term_col0(0)
+//@   ensures tw(s) && s.cursor == line && term_col0(0)
+//@   ensures s.maxLine == (if line > old(s.maxLine) then line else old(s.maxLine))
+//@   loop 1 invariant tw(s) && i == s.cursor && (old(s.cursor) <= line ==> s.cursor <= line) && (old(s.cursor) > line ==> s.cursor == old(s.cursor)) && line <= s.maxLine && s.maxLine == (if line > old(s.maxLine) then line else old(s.maxLine))
+//@   loop 2 invariant tw(s) && i == s.cursor && s.cursor >= line && line <= s.maxLine && s.maxLine == (if line > old(s.maxLine) then line else old(s.maxLine))
+
+//@ func (*TermWriter).writeAtCursor
+//@   requires term_col0(0)
+//@   modifies ghost term_line(term_row(0)), ghost term_dirty(term_row(0)), ghost term_col0(0), ghost w_calls
+//@   ensures term_line(term_row(0)) == wl_out(text, AutoTrim, computedCols)
+//@   ensures s.ClearLine ==> !term_dirty(term_row(0))
+
+// C20: after WriteForLine(line, text) row `line` shows exactly the (trimmed) text, nothing of a
+// longer earlier text, and every other row is unchanged; the cursor sits on that row.
+//@ func (*TermWriter).WriteForLine
+//@   requires tw(s) && 0 <= line && line <= 1000000000 && s.ClearLine
+//@   ensures tw(s) && s.cursor == line
+//@   ensures [latest] term_line(line) == wl_out(text, AutoTrim, computedCols) && !term_dirty(line)
+//@   ensures [others] forall r: int :: r != line ==> term_line(r) == old(term_line(r)) && term_dirty(r) == old(term_dirty(r))
+//@   ensures [max] s.maxLine == (if line > old(s.maxLine) then line else old(s.maxLine))
+
+// C20: on close the cursor is parked below the last line and is visible again.
+//@ func (*TermWriter).Close
+//@   requires tw(s)
+//@   ensures term_row(0) == old(s.maxLine) + 1 && !term_hidden(0)
+//@   ensures forall r: int :: term_line(r) == old(term_line(r)) && term_dirty(r) == old(term_dirty(r))
+
+// ---- VirtualTerm / BufferedTerm: the line store ----
+//@ func (*VirtualTerm).WriteForLine
+//@   requires line >= 0 && line <= 1000000000 && !s.closed
+//@   modifies s.lines, s.lines[..]
+//@   ensures len(s.lines) == (if line >= old(len(s.lines)) then line + 1 else old(len(s.lines)))
+//@   ensures s.lines[line] == text
+//@   ensures forall k in [0, old(len(s.lines))) :: k != line ==> s.lines[k] == old(s.lines[k])
+//@   ensures forall k in [old(len(s.lines)), len(s.lines)) :: k != line ==> s.lines[k] == ""
+//@   loop 1 invariant (ref(s.lines) == old(ref(s.lines)) && off(s.lines) == old(off(s.lines)) || fresh(s.lines)) && line >= 0 && len(s.lines) >= old(len(s.lines)) && len(s.lines) <= (if line >= old(len(s.lines)) then line + 1 else old(len(s.lines)))
+//@   loop 1 invariant forall k in [0, old(len(s.lines))) :: s.lines[k] == old(s.lines[k])
+//@   loop 1 invariant forall k in [old(len(s.lines)), len(s.lines)) :: s.lines[k] == ""
+//@ func (*VirtualTerm).Get
+//@   pure
+//@   ensures (line < 0 || line >= len(s.lines)) ==> result == ""
+//@   ensures 0 <= line && line < len(s.lines) ==> result == s.lines[line]
